@@ -89,6 +89,10 @@ Definition check_drv (prop : Z) (inp impl : sx) : sx :=
                        else if existsb (fun s => negb (s_ttl s =? ttl) && probe_id_clash c s ttl rnd) st then [6; 3]   (* identifier shared with the probe of another TTL *)
                        else [])
                     else if (prop =? 19) && negb (ok =? 0) && negb (probe_ttl_byte pkt =? ttl) then [19; 1]
+                    (* C09: the first send of an in-range TTL fails - the only thing that happened to the driver since its
+                       last send is inbound packets, and a failed SendProbe aborts the run *)
+                    else if (prop =? 9) && (ok =? 0) && in_ttl_range c ttl && negb (existsb (fun s => s_ttl s =? ttl) st)
+                            && (match m with SendOk _ _ => true | SendErr => false end) then [9; 4]
                     else [] in
                   match spec_fail with
                   | _ :: _ => verdict V_SPECFAIL cls spec_fail (L [])
